@@ -267,15 +267,22 @@ func (e *FEnc) call(st *State, in ssa.Instruction, cc *ssa.CallCommon, res ssa.V
 			}
 		}
 	} else {
-		// materialise arguments (leaks pointers to locals)
-		for _, a := range pvals {
-			if a != nil {
-				e.leakVal(a)
+		// effects of an unknown body: the heap, every local whose address was stored in the heap, and
+		// (unless the contract says the callee does not write through its arguments) every local
+		// reachable from the arguments. Callees are assumed not to retain pointers to caller locals.
+		if !(fc != nil && fc.NoHavoc) {
+			var as []*Val
+			for _, a := range pvals {
+				if a != nil {
+					as = append(as, a)
+				}
 			}
-		}
-		if !pure && !(fc != nil && fc.NoHavoc) {
+			reach := e.reachable(st, as)
 			e.havocHeap(st)
 			e.havocLeaked(st)
+			if !(fc != nil && fc.PreservesArgs) {
+				e.havocSet(st, reach)
+			}
 		}
 		if resTy != nil {
 			result = e.newVal(resTy, "r_"+mangle(lastPart(name)))
@@ -320,19 +327,27 @@ func calleeKey(cc *ssa.CallCommon, fn *ssa.Function) string {
 	if fn != nil {
 		return fn.String()
 	}
+	if cc.IsInvoke() {
+		if n := namedOf(cc.Value.Type()); n != nil && n.Obj().Pkg() != nil {
+			return n.Obj().Pkg().Path() + "." + n.Obj().Name() + "." + cc.Method.Name()
+		}
+	}
 	return calleeName(cc)
 }
 
-// leakVal reifies any engine pointers inside a value.
+// leakVal marks every local object pointed to from inside v as permanently escaped.
 func (e *FEnc) leakVal(v *Val) {
-	if v.P != nil {
-		e.reify(v.P)
+	if v.P != nil && v.P.Root == rLocal {
+		e.leak(v.P.Alloc)
 	}
 	for _, f := range v.Fields {
 		e.leakVal(f)
 	}
 	for _, f := range v.Tup {
 		e.leakVal(f)
+	}
+	if v.Box != nil {
+		e.leakVal(v.Box)
 	}
 }
 
